@@ -60,6 +60,9 @@ struct InputKey {
   SourceKey source{};
   std::vector<std::size_t> target_path{};
   bool rank_dependency{true};
+  // A passive(port) usage changes the receiving node's active list, so it
+  // is part of the node's identity (see Wiring::add_node).
+  bool passive{false};
 
   bool operator==(const InputKey &) const noexcept = default;
 };
@@ -100,6 +103,7 @@ struct InstanceKeyHash {
         combine(h, std::hash<std::size_t>{}(p));
       }
       combine(h, std::hash<bool>{}(input.rank_dependency));
+      combine(h, std::hash<bool>{}(input.passive));
       combine(h, 0xA7A7A7A7ULL); // target-path separator
     }
     combine(h, key.scalars.has_value() ? key.scalars.hash() : std::size_t{0});
@@ -176,6 +180,7 @@ private:
                            ? std::vector<std::size_t>{index}
                            : input.target_path,
         .rank_dependency = input.rank_dependency,
+        .passive = input.source.arg_tag == WiringPortRef::ArgTag::Passive,
     });
   }
   return key;
